@@ -28,6 +28,14 @@ CLAIMED = {
     text="ConsistentHashRing.get_nodes (ring walk with a quantified loop invariant and the pigeonhole exit argument), ConsistentHashingRouter.getDestinations (both branches, loop contracts with ghost first-occurrence witnesses), FastHashRing.get_nodes and _update_nodes are verified from source for every ring, node set, key, replication factor and DIVERSE_REPLICAS value: the result is duplicate-free, consists only of configured destinations with their configured port, has exactly min(RF, eligible) elements and no two share a server when diverse.",
     note="bisect_left / sorted / set and list models and three finite-set cardinality lemmas are assumed (A-LIB); the ring position is an uninterpreted function of the key (pinned in C06), which is also what makes the result a function of (ring, key); I_ring / I_router / I_fast are preconditions established by add/remove (C06); aggregated routers are C16; A-ENGINE, A-SMT",
     tech=TECH + "; inductive loop invariants over a symbolic ring, ghost witnesses"),
+  'C07': dict(
+    text="Every queue operation of the relay client (enqueue, enqueue_from_left, takeSomeFromQueue with a loop invariant, sendDatapoint, sendHighPriorityDatapoint, scheduleSend, the protocol's sendQueued / sendDatapointsNow, checkQueue, the two queue callbacks, destinationDown with a per-item re-injection contract) is verified from source against a whole-view contract over the queue as a sequence: arrivals append (self-metrics prepend), a send writes exactly the prefix of length min(batch, |queue|) and leaves the rest, a drop happens only without room below the hard limit and is counted, the limit is never exceeded by normal items, a removed destination re-injects every item in order; no AlreadyCalledError can occur.",
+    note="A-TWISTED-DEFER (Deferred/callLater semantics modelled); single reactor thread; the history statement (accepted == written ++ queue) is the induction over events of the per-operation view equations (meta-step); re-injection does not re-enter the drained queue (router no longer returns the destination); CarbonClientManager, FakeClientFactory, SSL set-up, ratio reset not under contract; A-ENGINE, A-SMT",
+    tech=TECH + "; sequence-view contracts per operation, loop invariant for the batching generator"),
+  'C09': dict(
+    text="Back-pressure release is verified as a safety invariant at every handler exit / atomic step. Cache side (two threads, rely/guarantee): cacheTooFull implies size >= low watermark outside the window between pop's lock release and the return of _check_available_space; store only raises the flag at >= MAX, pop is always followed by the check, the check restores the invariant under interference. Relay side: queueFull.called implies |queue| >= low watermark and queueHasSpace is armed, preserved by sendDatapoint, sendQueued, resumeProducing, the callbacks. Receivers: connectionMade pauses iff receivers are paused and registers for both events; wiring in service.py/events.py is a syntactic obligation. Two genuine defects are recorded as known findings with native witnesses (D7, D8).",
+    note="liveness is reduced to 'an outstanding pause has its release condition armed'; that the writer keeps draining / timers fire is assumed; A-GIL, A-THREADS for the cache side, A-TWISTED-DEFER for the relay side; D7 (resume fired by the writer thread inside connectionMade) and D8 (destination dropped while full) are known findings, their obligations are excluded from the discharged count while the native witnesses still fail; A-ENGINE, A-SMT",
+    tech=TECH + "; invariants at handler exits, rely/guarantee for the cache side"),
   'C10': dict(
     text="_MetricCache.store is verified from source for every cache state, datapoint and limit setting: size never exceeds CACHE_SIZE_HARD_MAX, a refusal fires cacheOverflow exactly once and leaves the whole view (keys, contents, new_metrics, size) unchanged, a duplicate timestamp is updated even when full. conf.py's derivation of the limits and events.py's handlers are checked syntactically.",
     note="store's body is one lock region (A-GIL); MAX_CACHE_SIZE is +inf or a real >= 1; events modelled by their default handlers; bucketmax store() is covered in C17; A-ENGINE, A-SMT",
@@ -44,6 +52,10 @@ CLAIMED = {
     text="Both definitions of SafeUnpickler.find_class are verified from source for every (module, name): a normal return implies membership in an allow-list pinned in the contract, nothing is imported or looked up off the list, everything else raises UnpicklingError; loads() is shown to run load() on the restricted subclass; get_unpickler is secure unless the flag is set; call sites and the default setting are syntactic obligations. The step to 'no byte string reaches a global' is the assumed contract A-PICKLE on CPython, cross-checked by a bounded opcode-route sweep.",
     note="A-PICKLE (CPython's Unpickler routes every global through find_class; bounded sweep of opcode routes x loaded-module attributes, labelled bounded, not counted as proved); strings as opaque atoms with exact literal equality; A-ENGINE, A-SMT",
     tech=TECH + "; pinned allow-list postcondition; bounded stand-in only for the dependency contract A-PICKLE"),
+  'C15': dict(
+    text="Batching is verified from source (takeSomeFromQueue prefix contract, sendQueued writes exactly that batch, the line client emits one line per datapoint in order, the pickle client one frame carrying the batch with protocol 2) and the emitted line is characterised structurally (\"%s %s %d\" of name, value text, timestamp; value text = %.10f with trailing zeros stripped for floats, %d otherwise), which is the receivers' C01 precondition. The numeric clause (value within 5e-11 / one ulp) is decided only by a bounded stand-in on the real client/listener pair.",
+    note="the decimal text round trip is outside z3/cvc5's theories: bounded (boundary magnitudes, neighbours, +-inf, ints, seeded random doubles), labelled bounded and not counted as proved; one known finding (5e-11 bound exceeded by < 1 ulp after re-parsing); A-STR, A-PICKLE; protobuf not covered; A-ENGINE, A-SMT",
+    tech=TECH + "; bounded native stand-in only for the IEEE decimal round trip"),
   'C16': dict(
     text="RelayRulesRouter.getDestinations (nested loops, ghost source-index witnesses) is verified from source to yield exactly the configured destinations of the matching rules, in file order, up to and including the first matching rule not marked continue; loadRelayRules is verified with an ordered-filter invariant (pattern rules in file order built from their own section, exactly one default rule last, the documented configuration errors otherwise); AggregatedConsistentHashingRouter.getDestinations is verified to return exactly the union of the hash destinations of the aggregate names (or of the metric itself when no rule applies), from which co-location is a lemma.",
     note="rule.matches / get_aggregate_metric are uninterpreted functions of (rule, key) (regex semantics not modelled); hash_router.getDestinations is an uninterpreted function of the name (C05 determinism); A-CONF for the parser; parseDestinations and regex compilation are opaque functions of the section text; A-ENGINE, A-SMT",
